@@ -26,6 +26,8 @@ pub struct Faults {
     /// every mprotect touching [lo, hi) that asks for PROT_EXEC fails with EACCES (a noexec mount,
     /// an execmod-style policy); requests without PROT_EXEC go through
     pub mprotect_deny_exec: Option<(u64, u64)>,
+    /// 1 + the number of mprotect calls to let through before refusing exactly one (0 = off)
+    pub mprotect_fail_after: u64,
     pub fired_enomem: u64,
     pub fired_mprotect: u64,
 }
@@ -33,7 +35,7 @@ pub struct Faults {
 thread_local! {
     static ARMED: Cell<bool> = const { Cell::new(false) };
     static LEDGER: RefCell<Vec<NEv>> = const { RefCell::new(Vec::new()) };
-    static FAULTS: RefCell<Faults> = const { RefCell::new(Faults { enomem_all: false, enomem_first: 0, mprotect_fail_next: false, mprotect_deny: None, mprotect_deny_exec: None, fired_enomem: 0, fired_mprotect: 0 }) };
+    static FAULTS: RefCell<Faults> = const { RefCell::new(Faults { enomem_all: false, enomem_first: 0, mprotect_fail_next: false, mprotect_deny: None, mprotect_deny_exec: None, mprotect_fail_after: 0, fired_enomem: 0, fired_mprotect: 0 }) };
     static COUNTS: Cell<(u64, u64, u64, u64)> = const { Cell::new((0, 0, 0, 0)) };
 }
 
@@ -199,7 +201,13 @@ pub unsafe extern "C" fn mprotect(addr: *mut libc::c_void, len: libc::size_t, pr
                 Some((lo, hi)) => prot & libc::PROT_EXEC != 0 && (addr as u64) < hi && (addr as u64 + len as u64) > lo,
                 None => false,
             };
-            if f.mprotect_fail_next || denied || denied_exec {
+            let kth = if f.mprotect_fail_after > 0 {
+                f.mprotect_fail_after -= 1;
+                f.mprotect_fail_after == 0
+            } else {
+                false
+            };
+            if f.mprotect_fail_next || denied || denied_exec || kth {
                 f.mprotect_fail_next = false;
                 f.fired_mprotect += 1;
                 true
